@@ -228,12 +228,20 @@ pub enum Rule<L: Language> {
 impl<L: Language> Rule<L> {
   /// Check if it has a cyclic referent rule with the id.
   pub(crate) fn check_cyclic(&self, id: &str) -> bool {
+    self.check_cyclic_impl(id, &mut HashSet::new())
+  }
+
+  /// `visited` holds the utils already followed: a util shared by several
+  /// references is looked into only once, otherwise the walk is exponential.
+  pub(super) fn check_cyclic_impl(&self, id: &str, visited: &mut HashSet<String>) -> bool {
     match self {
-      Rule::All(all) => all.inner().iter().any(|r| r.check_cyclic(id)),
-      Rule::Any(any) => any.inner().iter().any(|r| r.check_cyclic(id)),
-      Rule::Not(not) => not.inner().check_cyclic(id),
-      Rule::NthChild(nth) => nth.check_cyclic(id),
-      Rule::Matches(m) => m.rule_id == id || m.refers_to(id),
+      Rule::All(all) => all.inner().iter().any(|r| r.check_cyclic_impl(id, visited)),
+      Rule::Any(any) => any.inner().iter().any(|r| r.check_cyclic_impl(id, visited)),
+      Rule::Not(not) => not.inner().check_cyclic_impl(id, visited),
+      Rule::NthChild(nth) => nth.check_cyclic(id, visited),
+      Rule::Matches(m) => {
+        m.rule_id == id || (visited.insert(m.rule_id.clone()) && m.refers_to(id, visited))
+      }
       _ => false,
     }
   }
